@@ -174,7 +174,11 @@ var propC01 = &propDef{id: "C01", oracles: []oracleFn{oracleC01}, scenarios: taS
 	}}
 
 var propC03 = &propDef{id: "C03", oracles: []oracleFn{oracleC03}, scenarios: taScenarios}
-var propC05 = &propDef{id: "C05", oracles: []oracleFn{oracleC05}, scenarios: taScenarios}
+var propC05 = &propDef{id: "C05", oracles: []oracleFn{oracleC05}, scenarios: bothScenarios}
+
+func bothScenarios(thorough bool) []*scenario {
+	return append(taScenarios(thorough), blScenarios(thorough)...)
+}
 
 func TestVerifC01(t *testing.T) { runProp(t, propC01) }
 func TestVerifC03(t *testing.T) { runProp(t, propC03) }
